@@ -14,8 +14,23 @@ def pre(t, op):
 
 def post(t, op, pre_state):
     out = []
+    if t.spec.get("observe") == "leaves":
+        # the first reads after the op are the accessors of the securities (dormant ones included),
+        # only then the strategies': whoever is read first has to bring the whole tree up to date
+        for n in reversed(list(t.root.members)):
+            n.weight
+            n.value
     scale = T.gross(t)
     snap = T.snapshot(t)
+    # the tree's clock is the driver's, and an open position is marked at the driver's price of that date
+    if str(t.root.now) != str(t.dates[t.i]):
+        out.append({"rule": "clock", "expected": {"now": str(t.dates[t.i])}, "observed": str(t.root.now)})
+    for name in snap["__order__"]:
+        n = snap[name]
+        if n["kind"] == "X" and n["position"] != 0.0:
+            px = float(t.data[n["name"]].values[t.i])
+            if not (n["price"] == px or (px != px and n["price"] != n["price"])):
+                out.append({"rule": "security_marked_at_todays_price", "expected": {"node": name, "date": str(t.dates[t.i]), "price": px}, "observed": n["price"]})
     for rule, node, exp, obs in ref.balance_sheet(snap, scale):
         out.append({"rule": rule, "expected": {"node": node, "value": exp}, "observed": obs})
     hist = T.histories(t)
@@ -138,6 +153,10 @@ def configs(tier, seed):
         # ... and from a non-initial state: a position is open while the price sits at zero twice
         spec = dict(v, shape="T1", alpha="exact", capital=64.0, ndates=4, prices={"a": [4.0, 0.0, 0.0, 2.0], "b": [1.0, 2.0, 0.0, 1.0]}, preops=[["transact", [], "a", 3.0], ["next"]])
         out.append(("T1/zero2/%s" % _vname(v), spec, alpha.base_ops("T1") + [["next_raw"]], 2 if quick else 3))
+    # a security that was held, closed and has been skipped for two dates; after every op the securities are read first
+    for vi, v in enumerate(vs[:1] if quick else variants[:2]):
+        spec = dict(v, shape="T1", alpha="exact", capital=64.0, ndates=6, observe="leaves", preops=[["transact", [], "a", 3.0], ["next"], ["close", [], "a"], ["next"], ["next"]])
+        out.append(("T1/dormant/%s" % _vname(v), spec, alpha.base_ops("T1") + [["next_raw"]], 2 if quick else 3))
     # deliveries: fills at a custom price of exactly zero with bid/offer accounting on - no cash moves at all
     for integer in ((False,) if quick else (False, True)):
         spec = {"integer": integer, "fee": None, "spread": 0.5, "mult": {"a": 2}, "shape": "T1", "alpha": "exact", "capital": 64.0, "ndates": 4}
